@@ -8,7 +8,7 @@ LEVEL = "exploration"
 TECHNIQUE = "runtime monitoring: status assertions after every API call against the harness's in-flight set and the ledger's independent 'handled' decision"
 RULE = ("generated definitions x hashed outcomes x seeded schedules with pause/resume/cancel requests, crashes and early "
         "output renders inserted at seeded positions, plus a sweep inserting a pause(+resume) or a cancel at every "
-        "position of base histories; status truthfulness asserted after every API call; additionally the decision-shape family (exhaustive in the thorough tier, a rotating slice in the quick tier): every acyclic edge set over 4 tasks with a join x condition succeeded/failed per edge x outcome per task (4128 definitions); tasks that wait at the provider (an action reports pending or paused, is answered / runs again later, the provider resumes the workflow); non-trivial = history with at "
+        "position of base histories; status truthfulness asserted after every API call; additionally the decision-shape family (exhaustive in the thorough tier, a rotating slice in the quick tier): every acyclic edge set over 4 tasks with a join x condition succeeded/failed per edge x outcome per task (4128 definitions); tasks that wait at the provider (an action reports pending or paused, is answered / runs again later, the provider resumes the workflow); engine commands beside each other (exhaustive family: one or two transitions x condition x {implicit continue, continue, noop, fail, noop+fail, task+fail, task} x publish x outcome; 3612 definitions); non-trivial = history with at "
         "least one accepted control request or at least one reported failure; distinct = (definition, history) digest")
 ASSUMPTIONS = ASSUME_SIM
 
@@ -48,6 +48,8 @@ def jobs(tier, seed):
     js += [dict(fn="corpus", parts=4, part=i, runs=scale(tier, 4, 40), gseed=seed, ctl=dict(req=0.08, max_req=3, crash=0.04, early_render=0.3), name="corpus") for i in range(4)]
     # decision-shape family (exhaustive in the thorough tier, a rotating slice in the quick tier): every acyclic edge set over 4 tasks with a join x condition succeeded/failed per edge x outcome per task (4128 definitions)
     js += family_slices("ctl_sweep", 4128, 24, tier, seed + 3, parts=12, gen="cshape", modes=["pause", "cancel"], p_fail=0.0, name="decision-shapes-sweep")
+    # engine commands beside each other (exhaustive family: one or two transitions x condition x {implicit continue, continue, noop, fail, noop+fail, task+fail, task} x publish x outcome; 3612 definitions)
+    js += family_slices("conduct", 3612, 128, tier, seed, parts=2, gen="cmds", scheds=1, lazy=[0], p_fail=0.0, name="engine-command-combinations")
     return js
 
 
